@@ -87,6 +87,7 @@ CONTENTS = {
     "fenced_md": "```octave\n===D===\nMETA:\n  TYPE::T\n  VERSION::\"1\"\n===END===\n```\n",          # write unwraps a markdown fence
     "ascii_ops": "".join(f"K{i}::a->b\n" for i in range(7)),                    # lenient: W002 corrections (> 5 compilations)
     "holo": 'K::["x"∧REQ]\n',                                                   # F33 for eject(format=json)
+    "meta_nested": "===D===\nMETA:\n  TYPE::T\n  VERSION::\"1\"\n  NEST:\n    B::[1,2]\n===END===\n",   # F52 for eject(format=json)
     "contract": _doc("C", ["TYPE::CT", 'VERSION::"1"', "CONTRACT::[FIELD::REQ]"]),
     "annot": "A::NEVER[A,B]\nB::FOO[]\nC::\"true.\"\n",                              # F1/F2/F9 shapes (canonical must stay re-readable)
     "neg_inf": "A::-1e400\n",                                                   # F3: canonical `-inf` is rejected by the lexer
@@ -100,6 +101,18 @@ CONTENTS = {
     "bad_envelope": "===A===\nB::1\n===END===\n===C===\n",
 }
 UNPARSEABLE = {"bad_bracket", "bad_tab", "bad_char"}
+
+
+def preload():
+    """Import the implementation in the coordinating process so that forked pool workers inherit it."""
+    import octave_mcp.cli.main  # noqa: F401
+    import octave_mcp.core.hydrator  # noqa: F401
+    import octave_mcp.core.projector  # noqa: F401
+    import octave_mcp.core.repair  # noqa: F401
+    import octave_mcp.mcp.compile_grammar  # noqa: F401
+    import octave_mcp.mcp.eject  # noqa: F401
+    import octave_mcp.mcp.validate  # noqa: F401
+    import octave_mcp.mcp.write  # noqa: F401
 
 
 def content_text(c):
@@ -255,16 +268,21 @@ def grammar_cases():
     return out
 
 
-def cli_cases(thorough):
+def cli_cases(level):
+    """level 0 = quick (28 runs), 1 = widened quick (~90), 2 = thorough (~270)."""
     out = []
-    contents = ["meta_ok", "meta_missing_version", "meta_bad_enum", "meta_enum_case", "no_meta", "fields_bad_enum", "bad_bracket", "bad_tab",
-                "empty", "multi_ok"] if thorough else ["meta_ok", "meta_bad_enum", "meta_enum_case", "bad_bracket"]
-    schemas = [None, "META", "SKILL", "GEN_FIELDS", "GEN_BROKEN", "NOPE", "meta", "../../outside/EVIL", ""] if thorough else [None, "META", "NOPE", "GEN_BROKEN"]
+    contents = [["meta_ok", "meta_bad_enum", "meta_enum_case", "bad_bracket"],
+                ["meta_ok", "meta_missing_version", "meta_bad_enum", "meta_enum_case", "bad_bracket", "multi_ok"],
+                ["meta_ok", "meta_missing_version", "meta_bad_enum", "meta_enum_case", "no_meta", "fields_bad_enum", "bad_bracket", "bad_tab",
+                 "empty", "multi_ok"]][level]
+    schemas = [[None, "META", "NOPE", "GEN_BROKEN"],
+               [None, "META", "SKILL", "GEN_BROKEN", "NOPE", "meta", "../../outside/EVIL"],
+               [None, "META", "SKILL", "GEN_FIELDS", "GEN_BROKEN", "NOPE", "meta", "../../outside/EVIL", ""]][level]
     for c in contents:
         for s in schemas:
-            for fix in ((False, True) if thorough or s == "META" else (False,)):
-                out.append({"tool": "cli_validate", "content": c, "schema": s, "fix": fix, "stdin": thorough and (len(out) % 3 == 0)})
-            if thorough or s in (None, "META"):
+            for fix in ((False, True) if level == 2 or s == "META" else (False,)):
+                out.append({"tool": "cli_validate", "content": c, "schema": s, "fix": fix, "stdin": level == 2 and (len(out) % 3 == 0)})
+            if level == 2 or s in (None, "META"):
                 out.append({"tool": "cli_write", "content": c, "schema": s})
     return out
 
@@ -377,6 +395,22 @@ def probe_hermetic(name):
         return {"k": "raises"}
 
 
+_SHAPE = None
+
+
+def _blocking_shape():
+    """Regenerated from the source (tools/gen/tools.py): does ValidateTool.execute let every validator entry decide
+    the status ("all") or only those with severity != "warning" ("filter-warning")?"""
+    global _SHAPE
+    if _SHAPE is None:
+        try:
+            from gen.tools import validate_blocking_shape
+            _SHAPE = validate_blocking_shape()
+        except Exception:  # noqa: BLE001   (unknown shape: the translator reports the broken tie; stay with the pinned reading)
+            _SHAPE = "all"
+    return _SHAPE
+
+
 def _parse_kind(e):
     msg = str(e)
     return "tok" if ("E005" in msg or "Unexpected character" in msg) else "parse"
@@ -416,7 +450,12 @@ def probe_validate(case, text):
     builtin, defn, ss = _resolved(name, hermetic_ok=False)
     prof = (case.get("profile") or "STANDARD").upper()
     errs = Validator(schema=builtin).validate(doc, strict=(prof == "STRICT"), section_schemas=ss)
-    o["errs"] = [e.code for e in errs]
+    if _blocking_shape() == "filter-warning":       # shape of fix F37: severity="warning" entries never block
+        o["errs"] = [e.code for e in errs if e.severity != "warning"]
+        o["softWarnings"] = [e.code for e in errs if e.severity == "warning"]
+    else:
+        o["errs"] = [e.code for e in errs]
+    o["hardErrs"] = [e.code for e in errs if getattr(e, "severity", "error") != "warning"]      # for the oracle only
     none_errs = Validator(schema=None).validate(parse_with_warnings(text)[0], strict=False, section_schemas=ss)
     o["errsNoSchema"] = [e.code for e in none_errs]
     if case.get("fix"):
@@ -495,6 +534,7 @@ def probe_write(case, text, file_text, file_exists):
             v = Validator(schema=builtin)
             errs = v.validate(doc, strict=False, section_schemas=ss)
             o["errs0"] = [e.code for e in errs]
+            o["hardErrs0"] = [e.code for e in errs if getattr(e, "severity", "error") != "warning"]      # for the oracle only
             if lenient and builtin is not None and errs:
                 did = False
                 for fname, spec in builtin.get("META", {}).get("fields", {}).items():
@@ -570,8 +610,19 @@ def _sha(text):
     return hashlib.sha256(text.encode("utf-8")).hexdigest()
 
 
+_ACTIVE_INJECTION = None      # (holder, attribute, faulty callable, real callable): patched only *around the tool call*
+
+
 def _call(tool, args):
-    return TT.execute(tool, args)
+    inj = _ACTIVE_INJECTION
+    if inj is None:
+        return TT.execute(tool, args)
+    holder, attr, faulty, real = inj
+    setattr(holder, attr, faulty)
+    try:
+        return TT.execute(tool, args)
+    finally:
+        setattr(holder, attr, real)
 
 
 def _validate_args(case, sb, text):
@@ -612,6 +663,10 @@ def _validate_args(case, sb, text):
 def run_validate(case, sb):
     text = content_text(case["content"])
     args, fe = _validate_args(case, sb, text)
+    if "file_path" in args:
+        # stage outcome, not a guess: ask the real path check (keeps the model input right if its rules change)
+        from octave_mcp.mcp.validate import ValidateTool
+        fe["pathValid"] = bool(ValidateTool()._validate_path(args["file_path"])[0])
     outcome, r = _call("validate", args)
     inp = case.get("input", "content")
     va = {"hasContent": "content" in args, "hasFilePath": "file_path" in args, "schemaName": case["schema"]}
@@ -684,6 +739,8 @@ def run_write(case, sb):
         args["base_hash"] = _sha(before) if before is not None else _sha("nothing")
     elif case.get("base_hash") == "bad":
         args["base_hash"] = _sha("something else")
+    from octave_mcp.mcp.write import WriteTool
+    hints["pathValid"] = bool(WriteTool()._validate_path(args["target_path"])[0])      # stage outcome of the real path check
     outcome, r = _call("write", args)
     file_exists = before is not None
     wa = {"policyOk": case.get("policy", "error") in ("error", "salvage"), "hasContent": "content" in args, "hasChanges": "changes" in args,
@@ -885,12 +942,12 @@ def oracle(case, outcome, r, sb, args, probe=None):
     if vs == "VALIDATED" and tool == "validate" and (case.get("profile") or "STANDARD").upper() in ("STRICT", "STANDARD"):
         if isinstance(r.get("validation_errors"), list) and r["validation_errors"]:
             fails.append(("overstated", "octave_validate: VALIDATED with a non-empty validation_errors list"))
-    if vs == "VALIDATED" and tool == "validate" and (case.get("profile") or "STANDARD").upper() in ("STRICT", "STANDARD") and probe.get("errs"):
+    if vs == "VALIDATED" and tool == "validate" and (case.get("profile") or "STANDARD").upper() in ("STRICT", "STANDARD") and probe.get("hardErrs"):
         fails.append(("overstated", f"octave_validate: VALIDATED under profile {case.get('profile') or 'STANDARD (default)'} although the "
-                      f"validator, called on its own with the same schema, reports blocking errors {probe['errs']}"))
-    if vs == "VALIDATED" and tool == "write" and not case.get("lenient") and probe.get("errs0"):
+                      f"validator, called on its own with the same schema, reports blocking errors {probe['hardErrs']}"))
+    if vs == "VALIDATED" and tool == "write" and not case.get("lenient") and probe.get("hardErrs0"):
         fails.append(("overstated", f"octave_write: VALIDATED although the validator, called on its own with the same schema, reports "
-                      f"errors {probe['errs0']}"))
+                      f"errors {probe['hardErrs0']}"))
     # (8) stability: canonical text returned as VALIDATED is VALIDATED again under the same schema
     if vs == "VALIDATED" and r.get("status") == "success":
         fails += _stability(case, r, sb, args)
@@ -1148,12 +1205,14 @@ def run_injection(item):
     runner = {"validate": run_validate, "write": run_write, "eject": run_eject, "grammar": run_grammar}[case["tool"]]
     # 1) the base case, unfaulted, gives the model request (stage outcomes of the normal path)
     _o, _r, req, _a = runner(case, sb)
-    # 2) the same call with the stage made to raise
-    setattr(holder, parts[-1], _raiser_after(nth, _Boom(f"injected fault in {stage}"), real))
+    # 2) the same call with the stage made to raise (the fault is active only while the tool itself runs, never
+    #    while the harness probes the stages)
+    global _ACTIVE_INJECTION
+    _ACTIVE_INJECTION = (holder, parts[-1], _raiser_after(nth, _Boom(f"injected fault in {stage}"), real), real)
     try:
         outcome, r, _req2, args = runner(case, sb)
     finally:
-        setattr(holder, parts[-1], real)
+        _ACTIVE_INJECTION = None
     req = json.loads(json.dumps(req))
     req["o"].setdefault("raises", {})[stage] = "other"
     impl = view(r, case["tool"]) if outcome == "ok" and isinstance(r, dict) else {"raise": str(r)}
